@@ -248,6 +248,13 @@ def run(ctx: Any, prog: Program) -> None:
         for m, lab in g.succ[t.id]:
             if lab == 'true':
                 removed_edges.add((t.id, m, lab))
+    # the same guard written the other way round: `if self._temp_name is not None: <everything>` - its false edge is the exit without enter
+    for n in g.nodes:
+        if n.kind == 'test' and isinstance(n.stmt, ast.Compare) and len(n.stmt.ops) == 1 and isinstance(n.stmt.ops[0], ast.IsNot) and isinstance(n.stmt.comparators[0], ast.Constant) \
+                and n.stmt.comparators[0].value is None and ((dotted(n.stmt.left) or '').endswith('._temp_name') or (isinstance(n.stmt.left, ast.Name) and n.stmt.left.id in ex_alias)):
+            for m, lab in g.succ[n.id]:
+                if lab == 'false':
+                    removed_edges.add((n.id, m, lab))
     for r in replace_nodes:
         for m, lab in g.succ[r.id]:
             if lab != 'exc':
